@@ -259,3 +259,49 @@ def h_price(T: int, n: int, t1: int, t2: int, k1: int, k2: int, p1: int, p2: int
             if not feq(cs.price_per_kwh, expect):
                 return False
     return True
+
+
+# ------------------------------------------------------------------------------------- C01: price keys in any order
+class _KeyedUpdate:
+    """stands in for the accumulated immutables.Map of one price step: same lookups, keys() in a solver-chosen order"""
+
+    def __init__(self, data, perm):
+        self.data = data
+        self.perm = perm
+
+    def keys(self):
+        return stubs.OrderedView(tuple(self.data.keys()), self.perm)
+
+    def __getitem__(self, k):
+        return self.data[k]
+
+    def __len__(self):
+        return len(self.data)
+
+
+def h_price_order(p: int, q: int, x0: float, x1: float, x2: float) -> bool:
+    """
+    three keys naming station s0 (search cell, finer cell, coarser cell) with different prices: the station-level
+    update computed by the real _map_to_station_ids must not depend on the order in which the keys are visited
+    pre: 0 <= p <= 5 and 0 <= q <= 5 and p < q and 0 <= x0 <= 10 and 0 <= x1 <= 10 and 0 <= x2 <= 10
+    post: _
+    """
+    from nrel.hive.state.simulation_state.update import charging_price_update as cpu
+
+    pa, pb = stubs.perm_of(p, 3), stubs.perm_of(q, 3)
+    if pa is None or pb is None:
+        return True
+    data = {
+        GEO_KEYS[0]: immutables.Map({"LEVEL_2": x0}),
+        GEO_KEYS[1]: immutables.Map({"LEVEL_2": x1}),
+        GEO_KEYS[2]: immutables.Map({"LEVEL_2": x2}),
+    }
+    ra = cpu._map_to_station_ids(_KeyedUpdate(data, pa), SIM_P)  # ---- real code
+    rb = cpu._map_to_station_ids(_KeyedUpdate(data, pb), SIM_P)
+    note("price-order", len(ra))
+    if set(ra.keys()) != set(rb.keys()):
+        return False
+    for k in ra.keys():
+        if not (ra[k]["LEVEL_2"] == rb[k]["LEVEL_2"]):
+            return False
+    return True
